@@ -43,6 +43,9 @@ pub mod shims_nondet {
     // R3: which select! arm completes first is not modelled - every choice is verified
     #[verifier::external_body]
     pub fn nondet() -> bool { unimplemented!() }
+    // R3: tokio::select! panics when every arm has been disabled (refutable patterns) and there is no `else` arm
+    #[verifier::external_body]
+    pub fn select_all_disabled<T>() -> T requires false { unimplemented!() }
 }
 
 // (vstd already declares core::time::Duration as an external type)
@@ -50,6 +53,9 @@ pub uninterp spec fn nanos(d: std::time::Duration) -> int;
 #[verifier::external_body]
 pub broadcast proof fn axiom_nanos_nonneg(d: std::time::Duration) ensures #[trigger] nanos(d) >= 0 { }
 //@trusted std::time::Duration: opaque value (only passed through, never computed with in the verified functions); its length in nanoseconds is a non-negative integer
+pub assume_specification [core::time::Duration::is_zero] (d: &std::time::Duration) -> (r: bool)
+    ensures r == (nanos(*d) == 0);
+//@trusted std: Duration::is_zero() <=> the duration spans no time (std documentation)
 
 pub assume_specification<T> [std::mem::drop] (_0: T);
 pub assume_specification<T: Default> [core::mem::take] (dest: &mut T) -> (r: T) ensures r == *old(dest);
